@@ -376,6 +376,79 @@ def w_class(spec):
         return ("exc", f"{type(e).__name__}: {e}"[:300])
 
 
+# ---- inheritance chains (plugin-ness varies per level)
+
+def build_chain(spec, tag):
+    """classes root..leaf of the chain; raises TypeError/ValueError when class creation or a
+    decorator refuses"""
+    from pydantic import Extra
+    from metador_core.schema.core import MetadataSchema
+    from metador_core.schema.decorators import add_const_fields, override
+    _env()
+    base, classes = MetadataSchema, []
+    for lv, L in enumerate(spec["levels"]):
+        ns = {"__annotations__": {n: hint_py(ann, t) for n, (ann, t) in L["own"]}, "__module__": __name__}
+        if L["extra_explicit"] is not None:
+            ns["Config"] = type("Config", (), {"extra": Extra(L["extra_explicit"])})
+        if L["plugin"]:
+            ns["Plugin"] = type("Plugin", (), {"name": f"vt.cn{tag}l{lv}", "version": (0, 1, 0)})
+        C = type(f"Chain{lv}", (base,), ns)
+        if L["newconsts"]:
+            C = add_const_fields({c: "cconst" for c in L["newconsts"]}, override=True)(C)
+        if L["declared"]:
+            C = override(*L["declared"])(C)
+        classes.append(C)
+        base = C
+    return classes
+
+
+def impl_chain_case(spec) -> Dict[str, Any]:
+    from metador_core.plugin.util import register_in_group
+    from metador_core.plugins import schemas
+    from metador_core.schema.core import check_types
+    out: Dict[str, Any] = {"a": "refused", "b": "refused", "why": "", "rows": []}
+    salt = spec.get("salt", 0)
+    cls_a = cls_b = None
+    try:                                # path a: the documented delayed check on the leaf
+        cls_a = build_chain(spec, f"{spec['idx']}s{salt}a")
+        check_types(cls_a[-1])
+        out["a"] = "ok"
+    except (TypeError, ValueError, KeyError) as e:   # KeyError: see note on check_overrides' error message
+        out["why"] = f"{type(e).__name__}: {str(e)[:160]}"
+    try:                                # path b: real registration in the schema plugin group, root first
+        cls_b = build_chain(spec, f"{spec['idx']}s{salt}b")
+        for C in cls_b:
+            if C.__dict__.get("Plugin"):
+                register_in_group(schemas, C, violently=True)
+        out["b"] = "ok"
+    except (TypeError, ValueError, KeyError) as e:
+        out["why_b"] = f"{type(e).__name__}: {str(e)[:160]}"
+    classes = cls_a if out["a"] == "ok" else (cls_b if out["b"] == "ok" else None)
+    if classes is None:
+        return out
+    for obj in spec["objects"]:
+        raw = json.dumps(obj)
+        direct = [_parses(C, raw)[0] for C in classes]
+        leaf_ok, inst = _parses(classes[-1], raw)
+        dumps = None
+        if leaf_ok:
+            b = bytes(inst)
+            dumps = []
+            for C in classes[:-1]:
+                ok, cause = _parses(C, b)
+                dumps.append([ok, None if ok else cause])
+        out["rows"].append([leaf_ok, direct, dumps])
+    return out
+
+
+def w_chain(spec):
+    try:
+        with vlib.time_limit(120):
+            return ("ok", impl_chain_case(spec))
+    except Exception as e:  # noqa: BLE001
+        return ("exc", f"{type(e).__name__}: {e}"[:300])
+
+
 # ---- installed schemas
 
 def _sample_atom(t, rng):
@@ -678,6 +751,116 @@ def gen_class_case(rng, idx) -> Dict[str, Any]:
             "objects": objects}
 
 
+def gen_chain_case(rng, idx) -> Dict[str, Any]:
+    """Root -> ... -> Leaf, 3 or 4 classes; every level may or may not be a registered plugin (the leaf
+    always is); overrides mostly at intermediate levels, the leaf mostly leaves inherited fields alone."""
+    depth = rng.choice([3, 3, 4])
+    strict_pool = [t for t in FIELD_POOL if in_property_grammar(t)]
+    root_fields = [(f"f{i}", (rng.random() < 0.3, rng.choice(strict_pool))) for i in range(rng.randint(1, 2))]
+    root_extra = rng.choice(["allow", "allow", "allow", "ignore", "forbid"])
+    levels = [{"plugin": rng.random() < 0.75, "own": root_fields, "extra": root_extra,
+               "extra_explicit": None if root_extra == "allow" else root_extra, "declared": [], "newconsts": []}]
+    cur_t = dict(root_fields)
+    cur_extra = root_extra
+    for lv in range(1, depth):
+        leaf = lv == depth - 1
+        own = []
+        if rng.random() < (0.2 if leaf else 0.75):
+            for n, (ann, t) in list(cur_t.items()):
+                if rng.random() < 0.6:
+                    ct = pick_override(t, rng)
+                    if not in_property_grammar(ct) and rng.random() < 0.8:
+                        ct = t
+                    own.append((n, (ann if rng.random() < 0.9 else not ann, ct)))
+        if rng.random() < (0.08 if cur_extra == "forbid" else 0.3):
+            own.append((f"n{lv}", (False, rng.choice(strict_pool))))
+        declared = [n for n, _ in own if n in cur_t and rng.random() < 0.1]
+        newconsts = [f"k{lv}"] if rng.random() < (0.05 if cur_extra == "forbid" else 0.12) else []
+        explicit = None if rng.random() < 0.85 else rng.choice(["allow", "ignore", "forbid"])
+        extra = explicit if explicit is not None else cur_extra
+        levels.append({"plugin": True if leaf else rng.random() < 0.35, "own": own, "extra": extra,
+                       "extra_explicit": explicit, "declared": declared, "newconsts": newconsts})
+        cur_t.update(own)
+        cur_extra = extra
+    objects = []
+    for _ in range(8):
+        o = {}
+        for n, (_a, t) in cur_t.items():
+            if rng.random() < 0.9:
+                v = good_value(t, rng)
+                if v is None and rng.random() < 0.7:
+                    continue
+                o[n] = v
+            else:
+                v = rng.choice(OBJ_VALUES)
+                if v != "<absent>":
+                    o[n] = v
+        if rng.random() < 0.15:
+            o["zz"] = rng.choice([1, "x"])
+        objects.append(o)
+    return {"idx": idx, "levels": levels, "objects": objects}
+
+
+def chain_case_sx(spec, pt) -> Any:
+    root = spec["levels"][0]
+    root_sx = [["100"], root["extra"], [[n, hint_sx(ann, t)] for n, (ann, t) in root["own"]], []]
+    kids = [[str(100 + lv), L["extra"], [[n, hint_sx(ann, t)] for n, (ann, t) in L["own"]],
+             list(L["declared"]), list(L["newconsts"])] for lv, L in enumerate(spec["levels"]) if lv > 0]
+    return ["chain", pt, root_sx, kids, [j_sx(o) for o in spec["objects"]]]
+
+
+def chain_in_grammar(spec) -> bool:
+    return all(in_property_grammar(t) for L in spec["levels"] for _, (_, t) in L["own"])
+
+
+def _chain_from_json(rep):
+    def tup(x):
+        return tuple(tup(y) for y in x) if isinstance(x, list) else x
+    s = dict(rep)
+    s["levels"] = [dict(L, own=[(n, (a, tup(t))) for n, (a, t) in L["own"]]) for L in rep["levels"]]
+    return s
+
+
+def chain_fails(spec) -> bool:
+    """code-only oracle on one chain case: accepted, nothing declared, an ancestor rejects a leaf dump"""
+    st, got = w_chain(spec)
+    if st != "ok" or (got["a"] != "ok" and got["b"] != "ok") or any(L["declared"] for L in spec["levels"]):
+        return False
+    return any(leaf_ok and any(not ok for ok, _c in dumps) for leaf_ok, _d, dumps in got["rows"] if dumps is not None)
+
+
+def shrink_chain_case(spec, obj):
+    n = [0]
+
+    def fails(sp):
+        n[0] += 1
+        return chain_fails(dict(sp, salt=n[0]))
+
+    cur = dict(spec, objects=[obj])
+    if not fails(cur):
+        return dict(spec, objects=[obj])
+    o = dict(obj)
+    for k in list(o):                       # object keys
+        o2 = {a: b for a, b in o.items() if a != k}
+        if fails(dict(cur, objects=[o2])):
+            o, cur = o2, dict(cur, objects=[o2])
+    for lv in range(len(cur["levels"])):    # own fields / constants of every level
+        for key in ("own", "newconsts"):
+            for it in list(cur["levels"][lv][key]):
+                lvls = [dict(L) for L in cur["levels"]]
+                lvls[lv][key] = [x for x in lvls[lv][key] if x != it]
+                trial = dict(cur, levels=lvls)
+                if fails(trial):
+                    cur = trial
+    o = dict(cur["objects"][0])
+    for k in list(o):                       # keys that became irrelevant
+        o2 = {a: b for a, b in o.items() if a != k}
+        if fails(dict(cur, objects=[o2])):
+            o, cur = o2, dict(cur, objects=[o2])
+    cur["salt"] = n[0] + 1
+    return cur
+
+
 CONST_HINT_SX = ["F", ["union", [["any"], ["none"]]]]
 
 
@@ -828,11 +1011,23 @@ def run(ctx: vlib.Ctx):
             if in_property_grammar(a_d) and in_property_grammar(b_d):
                 if not oracle_reported:
                     oracle_reported = True
+                    # the same witness at class level: Parent.x : b, Child(Parent).x : a, no @override
+                    cc = {"idx": 0, "p_fields": [("x", (annb, b_d))], "p_extra": "allow", "p_consts": [],
+                          "c_own": [("x", (ann, a_d))], "c_declared": [], "c_newconsts": [],
+                          "c_extra_explicit": None, "c_extra": "allow",
+                          "objects": [{} if wit[0] is None else {"x": wit[0]}]}
+                    cst, cgot = w_class(cc) if mergeable(a_d) and mergeable(b_d) else ("skip", None)
+                    cls_note = ""
+                    if cst == "ok" and cgot["status"] == "ok" and cgot["rows"][0][0] and cgot["rows"][0][2] is False:
+                        cls_note = (f"; class level: check_types(Child) passes, Child accepts {json.dumps(cc['objects'][0])}, "
+                                    f"Parent.parse_raw(bytes(child)) fails ({cgot['rows'][0][3]})")
                     ctx.violation(
-                        f"is_subtype admits child field type {a_d} for parent field type {b_d}, but the child accepts "
-                        f"{wit[0]!r} and the parent rejects its dump {wit[1]!r}",
-                        {"kind": "type-oracle", "a": [ann, a_d], "b": [annb, b_d], "value": wit[0]},
-                        sig_obj={"kind": "type-oracle", "a": a_d, "b": b_d})
+                        f"is_subtype admits child field type {'Annotated ' if ann else ''}{a_d} for parent field type "
+                        f"{'Annotated ' if annb else ''}{b_d} (a class overriding a parent field this way passes check_types), but the child accepts "
+                        f"{wit[0]!r} and the parent rejects its dump {wit[1]!r}" + cls_note,
+                        {"kind": "type-oracle", "a": [ann, a_d], "b": [annb, b_d], "value": wit[0],
+                         "class_case": _jsonable(cc) if cls_note else None},
+                        sig_obj={"kind": "type-oracle", "a": a_d, "b": b_d, **({"annotated": [ann, annb]} if ann or annb else {})})
             else:
                 if mc[1] == "T" and len(disagreements) < 30:
                     disagreements.append({"kind": "safe_pair", "a": a_d, "b": b_d, "value": wit[0],
@@ -896,6 +1091,66 @@ def run(ctx: vlib.Ctx):
     ctx.sample({"case": ccases[3], "model": mcls[3]})
     xc_cls = vlib.coq_crosscheck("c13", ccases[:60], mcls[:60], "c13cls", max_cases=20)
 
+    # ---- 4. inheritance chains + oracle D
+    nch = ctx.budget(250, 5000)
+    chains = [gen_chain_case(ctx.rng, k) for k in range(nch)]
+    hcases = [chain_case_sx(c, pt) for c in chains]
+    mch = vlib.run_model("c13", hcases)
+    ich = vlib.pmap(w_chain, chains, chunksize=4)
+    evals += nch
+    n_ch_ok = n_ch_rows = n_ch_leaf_acc = n_ch_mid_override = 0
+    chain_reported = set()
+    for spec, (mchk, mrows), (st, got) in zip(chains, mch, ich):
+        if st != "ok":
+            disagreements.append({"kind": "chain-exc", "spec": _jsonable(spec), "impl": got})
+            continue
+        for path in ("a", "b"):
+            if (got[path] == "ok") != (mchk == "T") and len(disagreements) < 30:
+                disagreements.append({"kind": "check_chain", "via": "check_types(leaf)" if path == "a" else "register_in_group",
+                                      "spec": _jsonable(spec), "impl": got[path], "why": got.get("why"),
+                                      "model": mchk})
+        accepted = got["a"] == "ok" or got["b"] == "ok"
+        n_ch_ok += accepted
+        n_ch_mid_override += accepted and any(L["own"] and not L["plugin"] for L in spec["levels"][1:-1])
+        for obj, (leaf_ok, direct, dumps), (mleaf, manc) in zip(spec["objects"], got["rows"], mrows):
+            n_ch_rows += 1
+            n_ch_leaf_acc += bool(leaf_ok)
+            if [("T" if x else "F") for x in direct] != list(manc) and len(disagreements) < 30:
+                disagreements.append({"kind": "chain-accepts", "spec": _jsonable(spec), "object": obj,
+                                      "impl": direct, "model": manc})
+            # oracle D (code alone): the leaf was let through, so every ancestor reads its instances
+            if not (leaf_ok and dumps is not None) or any(L["declared"] for L in spec["levels"]):
+                continue
+            bad = [(lv, cause) for lv, (ok, cause) in enumerate(dumps) if not ok]
+            if not bad:
+                continue
+            if chain_in_grammar(spec):
+                lv, cause = bad[0]
+                kind = cause[0] if cause else "unknown"
+                sig = {"kind": "chain-oracle", "cause": kind}
+                key = json.dumps(sig, sort_keys=True)
+                if kind == "field" and oracle_reported:
+                    continue            # the exhaustive type-pair oracle already reported a field-type witness
+                if key in chain_reported or (key.replace("chain-oracle", "class-oracle") in cls_reported):
+                    continue
+                chain_reported.add(key)
+                small = shrink_chain_case(spec, obj)
+                st2, got2 = w_chain(dict(small, salt=small.get("salt", 0) + 1))
+                if st2 == "ok" and got2["rows"] and got2["rows"][0][2]:
+                    bad2 = [(i, c) for i, (ok, c) in enumerate(got2["rows"][0][2]) if not ok]
+                    if bad2:
+                        lv, cause = bad2[0]
+                plug = ["plugin" if L["plugin"] else "no plugin" for L in small["levels"]]
+                ctx.violation(
+                    f"inheritance chain {plug} passes check_types(leaf)={got['a']} / registration={got['b']} without "
+                    f"declared overrides, the leaf accepts {json.dumps(small['objects'][0])}, and the ancestor at level "
+                    f"{lv} rejects the serialised leaf instance ({cause})",
+                    {"kind": "chain-oracle", "spec": _jsonable(small)}, sig_obj=sig)
+            elif len(gaps) < 12:
+                gaps.append({"chain_case": _jsonable(spec), "object": obj})
+    ctx.sample({"case": hcases[1], "model": mch[1]})
+    xc_ch = vlib.coq_crosscheck("c13", hcases[:60], mch[:60], "c13chain", max_cases=15)
+
     # ---- oracle C: installed schema plugins
     plugins = vlib.pmap(list_installed, [None, None], procs=2)[0]
     per = ctx.budget(25, 300)
@@ -923,7 +1178,7 @@ def run(ctx: vlib.Ctx):
 
     # ---- summary
     cov["evaluations"] = evals
-    cov["distinct_nontrivial"] = n_sub + n_ok + n_inst
+    cov["distinct_nontrivial"] = n_sub + n_ok + n_ch_ok + n_inst
     cov["rule"] = ("type pairs: all ordered pairs of the depth<=2 universe (+ Annotated flags on atom pairs); non-trivial = "
                    "pairs the real is_subtype admits; classes: generated parent/child definitions, non-trivial = passing "
                    "the real check; installed: distinct serialised instances accepted by the schema itself")
@@ -932,12 +1187,16 @@ def run(ctx: vlib.Ctx):
         "types": len(types), "values": len(values), "values_added_by_dump_closure": len(extra_vals),
         "accept_cells": {"accepted": n_accept, "rejected": n_reject},
         "pairs": len(rows) * len(all_b), "pairs_subtype_true": n_sub, "pairs_with_witness_outside_grammar": witnessed,
+        "chains": nch, "chains_accepted": n_ch_ok, "chains_accepted_with_override_in_non_plugin_middle": n_ch_mid_override,
+        "chain_objects": n_ch_rows, "chain_objects_leaf_accepted": n_ch_leaf_acc,
+        "chain_lengths": _hist(len(c["levels"]) for c in chains),
+        "chain_plugin_patterns": _hist("".join("P" if L["plugin"] else "-" for L in c["levels"]) for c in chains),
         "classes": ncls, "classes_ok": n_ok, "classes_refused": n_ref, "class_objects": n_rows,
         "class_objects_child_accepted": n_child_acc,
         "installed": {r["schema"]: {"built": r["built"], "distinct": r["distinct"], "invalid": r["invalid"],
                                     "unserialisable": r["unserialisable"], "ancestors": len(r["ancestors"])} for r in inst},
     }
-    cov["coq_crosscheck"] = {"acc": xc_acc, "sub": xc_sub, "cls": xc_cls}
+    cov["coq_crosscheck"] = {"acc": xc_acc, "sub": xc_sub, "cls": xc_cls, "chain": xc_ch}
     cov["disagreements"] = len(disagreements)
     ctx.assumptions += [
         "strings are ASCII; JSON object keys are distinct; floats are multiples of 0.5",
@@ -956,7 +1215,7 @@ def run(ctx: vlib.Ctx):
         if any(not s.strip() for s in ptab[chain[0]]):
             disagreements.append({"kind": "phantom-premise-blank", "type": n})
 
-    xcs = [xc_acc, xc_sub, xc_cls]
+    xcs = [xc_acc, xc_sub, xc_cls, xc_ch]
     if not all(x["ok"] for x in xcs):
         ctx.violation("extracted runner and in-Coq evaluation of the model disagree (stale or wrong extraction)",
                       {"kind": "crosscheck", "crosscheck": xcs}, found_input=False)
@@ -973,6 +1232,13 @@ def run(ctx: vlib.Ctx):
                       found_input=False)
     elif disagreements:
         ctx.notes.append(f"{len(disagreements)} model/impl disagreements (first: {disagreements[0]})")
+
+
+def _hist(it):
+    h: Dict[str, int] = {}
+    for x in it:
+        h[str(x)] = h.get(str(x), 0) + 1
+    return h
 
 
 def shrink_class_case(spec, obj):
@@ -1031,6 +1297,8 @@ def replay(rep) -> int:
             return 0
         p_ok, _ = parse_field(b, json.loads(d))
         print(f"parent field accepts the dump: {p_ok}")
+        if rep.get("class_case"):
+            print("class level:", w_class(_spec_from_json(rep["class_case"])))
         print("still failing" if not p_ok else "no longer failing")
         return 0 if p_ok else 1
     if kind == "class-oracle":
@@ -1039,6 +1307,14 @@ def replay(rep) -> int:
         print(st, got)
         bad = st == "ok" and got["status"] == "ok" and not spec["c_declared"] and any(
             c_ok and p_dump is False for c_ok, _p, p_dump, _c in got["rows"])
+        print("still failing" if bad else "no longer failing")
+        return 1 if bad else 0
+    if kind == "chain-oracle":
+        spec = _chain_from_json(rep["spec"])
+        spec["salt"] = int(__import__("time").time()) % 100000
+        st, got = w_chain(spec)
+        print(st, got)
+        bad = chain_fails(dict(spec, salt=spec["salt"] + 1))
         print("still failing" if bad else "no longer failing")
         return 1 if bad else 0
     if kind == "installed":
